@@ -3,6 +3,7 @@ package main
 import (
 	"fmt"
 	"go/token"
+	"go/types"
 	"strings"
 
 	"golang.org/x/tools/go/ssa"
@@ -418,12 +419,13 @@ func checkC05(cx *Ctx, r *Report) {
 			r.Fail("R-VFG", "sso:ValidatePost:certs", w.InstrPos(sites[0]), "the certificates used for POST verification are no longer taken from the service provider's key descriptors")
 		}
 	}
+	cx.checkSigningCertsOnly(r)
 	// signerPublicKey is written only by NewServiceProvider
 	for _, fn := range w.Funcs {
 		for _, st := range fx.info(fn).stores {
 			if fa, ok := st.Addr.(*ssa.FieldAddr); ok && fieldOwner(fa.X.Type()) == "serviceprovider.ServiceProvider" {
-				fname := fname(fieldVar(fa.X.Type(), fa.Field))
-				r.Check(w.FuncKey(fn) == kNewSP, "R-WHO", "ServiceProvider."+fname+"@"+w.FuncKey(fn), w.InstrPos(st), "written by the constructor only", "ServiceProvider."+fname+" is written outside NewServiceProvider: the verification key / metadata of a registered provider can change after registration")
+				fld := fname(fieldVar(fa.X.Type(), fa.Field))
+				r.Check(w.FuncKey(fn) == kNewSP, "R-WHO", "ServiceProvider."+fld+"@"+w.FuncKey(fn), w.InstrPos(st), "written by the constructor only", "ServiceProvider."+fld+" is written outside NewServiceProvider: the verification key / metadata of a registered provider can change after registration")
 			}
 		}
 	}
@@ -620,4 +622,92 @@ func (cx *Ctx) checkVerifier(r *Report, fn *ssa.Function, isCrypto func(ssa.Call
 		}
 	}
 	r.Ok("R-VERIFIER", key, w.FnPos(fn), fmt.Sprintf("nil only as / under the verdict of %d verifying call(s)", len(vcalls)))
+}
+
+// checkSigningCertsOnly: every certificate GetCertsFromKeyDescriptors can return was appended on a path that
+// established use == "" or use == "signing" for its key descriptor: a key published for another purpose
+// (encryption) never verifies a request signature.
+func (cx *Ctx) checkSigningCertsOnly(r *Report) {
+	w, fx := cx.W, cx.Fx
+	gc := w.Func("xml.GetCertsFromKeyDescriptors")
+	if gc == nil {
+		r.Fail("R-GUARD", "GetCertsFromKeyDescriptors:signing-only", "", "anchor not found")
+		return
+	}
+	// the appends that can contribute to a returned slice
+	var appends []*ssa.Call
+	seen := map[ssa.Value]bool{}
+	ok := true
+	var back func(v ssa.Value, d int)
+	back = func(v ssa.Value, d int) {
+		if seen[v] || d > 30 {
+			return
+		}
+		seen[v] = true
+		switch x := v.(type) {
+		case *ssa.Phi:
+			for _, e := range x.Edges {
+				back(e, d+1)
+			}
+		case *ssa.Call:
+			if b, isB := x.Call.Value.(*ssa.Builtin); isB && b.Name() == "append" {
+				appends = append(appends, x)
+				back(x.Call.Args[0], d+1)
+				return
+			}
+			ok = false
+		case *ssa.Slice:
+			// an empty literal []string{}
+			if al, isAl := x.X.(*ssa.Alloc); isAl {
+				if arr, isArr := al.Type().Underlying().(*types.Pointer).Elem().Underlying().(*types.Array); isArr && arr.Len() == 0 {
+					return
+				}
+			}
+			ok = false
+		case *ssa.Const:
+		case *ssa.MakeSlice:
+		case *ssa.UnOp:
+			if cell, isCell := x.X.(*ssa.Alloc); isCell && x.Op == token.MUL {
+				for _, s := range fx.storesToCell(cell) {
+					back(s, d+1)
+				}
+				return
+			}
+			ok = false
+		default:
+			ok = false
+		}
+	}
+	for _, ret := range returnsOf(gc) {
+		if len(ret.Results) > 0 {
+			back(ret.Results[0], 0)
+		}
+	}
+	if !ok {
+		r.Undecided("R-GUARD", "GetCertsFromKeyDescriptors:signing-only", w.FnPos(gc), "the returned list is not built by appends alone")
+		return
+	}
+	bad := ""
+	for _, ap := range appends {
+		pts, okp := fx.atomPathsTo(ap.Block(), 4096)
+		if !okp {
+			r.Undecided("R-GUARD", "GetCertsFromKeyDescriptors:signing-only", w.InstrPos(ap), "too many paths")
+			return
+		}
+		for _, p := range pts {
+			okUse := false
+			for _, a := range p.Atoms {
+				if a.Neg || !strings.HasSuffix(a.TA, ".Use") && !strings.HasSuffix(a.TB, ".Use") {
+					continue
+				}
+				if a.Op == "EMPTY" || a.Op == "EQ" && (a.A == "const:signing" || a.B == "const:signing") {
+					okUse = true
+				}
+			}
+			if !okUse {
+				bad = "a certificate is added to the returned list at " + w.InstrPos(ap) + " on a path that did not establish use == \"\" or use == \"signing\" (" + atomsStringT(p.Atoms) + ")"
+			}
+		}
+	}
+	r.Check(bad == "" && len(appends) > 0, "R-GUARD", "GetCertsFromKeyDescriptors:signing-only", w.FnPos(gc), fmt.Sprintf("%d append site(s), each under use == \"\" or use == \"signing\"", len(appends)), bad+": a request signed with a key the service provider did not publish for signing is accepted")
 }
